@@ -27,6 +27,8 @@ TECHNIQUE += '; interpretation of __format__/__str__ over {spec} x {stored spec}
 LEVEL_TEXT += ' Added clauses: format(style, spec) pads the visible text and styles once; truncation and padding are applied before styling everywhere in the package.'
 TECHNIQUE += '; visual_len = len(descape(text)), style(text, fmt=) carries the spec, repr writes the attributes with colour off'
 LEVEL_TEXT += ' Added clauses: see technique (C20.R4 additions).'
+TECHNIQUE += '; colour policy table: Color.enabled interpreted over override x NO_COLOR x FORCE_COLOR x stdout/stderr terminal x policy stream'
+LEVEL_TEXT += ' Added clause: the documented priority of the colour policy, with a stderr policy looking at stderr only.'
 LEVEL_NOTE = 'Trusted: format(text, spec) of the standard library; re semantics as parsed by re._parser.'
 EXPLANATION = ('Static analysis of /repo sources, TatSu not imported. Style.apply / apply_style / from_raw are interpreted by the '
                'whitelisted evaluator on checker-built style objects; regex literals of tatsu/util/tty.py are recompiled by the checker.')
